@@ -46,7 +46,7 @@ def slice_of(op):
 
 def ramp_vals(op, unit):
     """operand values in ps"""
-    if op[1] in ('t', 'u'):
+    if op[1] in ('t', 'u', 'self', 'selfview'):
         return list(op[2])
     return [v * FACTOR[unit] for v in op[2]]
 
@@ -62,10 +62,11 @@ def abs_step(a, op):
         sub = (k == 'sr') or (k == 'nu' and op[3] == 'sub')
         vals = ramp_vals(op, unit)
         dv = [y - x for x, y in zip(vals, vals[1:])]
-        if len(vals) < 2:
-            acc = None
-        else:
-            acc = all(d == dv[0] for d in dv) and len(vals) == n
+        if len(vals) == 0:
+            return a, False          # nothing to add: refused
+        if len(vals) == 1:           # numpy broadcasts a single element: a shift
+            return ((t0 - vals[0], dt, n, unit) if sub else (t0 + vals[0], dt, n, unit)), True
+        acc = all(d == dv[0] for d in dv) and len(vals) == n
         if acc is False:
             return a, False
         d = dv[0] if dv else 0
@@ -104,6 +105,8 @@ def tok_op(op):
         return '%s:%s:%d' % (k, 'i' if op[1] != 't' else 't', op[2])
     if k in ('ar', 'sr', 'nu'):
         kk = k if k != 'nu' else ('sr' if op[3] == 'sub' else 'ar')
+        if op[1] in ('self', 'selfview'):
+            return kk + ':self'
         return '%s:%s:%s' % (kk, 't' if op[1] in ('t', 'u') else 'i', ','.join(str(v) for v in op[2]) if op[2] else '-')
     if k in ('mu', 'dv'):
         return '%s:%d' % (k, op[1])
@@ -126,13 +129,17 @@ def mk_time(ps, unit, scalar):
     return t
 
 
-def mk_operand(op, unit):
+def mk_operand(op, unit, ax=None):
     k = op[0]
     if k in ('as', 'ss'):
         if op[1] == 't':
             return mk_time(op[2], op[3], True)
         return np.int64(op[2]) if op[1] == 'n' else int(op[2])
     form, vals = op[1], op[2]
+    if form == 'self':
+        return ax
+    if form == 'selfview':
+        return ax[:]
     if form == 'u':       # another uniform axis (ps values uniform, positive step, whole units of op[4])
         u2 = op[4]
         f = FACTOR[u2]
@@ -149,9 +156,9 @@ def apply_op(ax, op):
     k = op[0]
     try:
         if k in ('as', 'ar') or (k == 'nu' and op[3] == 'add'):
-            ax = operator.iadd(ax, mk_operand(op, ax.time_unit))
+            ax = operator.iadd(ax, mk_operand(op, ax.time_unit, ax))
         elif k in ('ss', 'sr', 'nu'):
-            ax = operator.isub(ax, mk_operand(op, ax.time_unit))
+            ax = operator.isub(ax, mk_operand(op, ax.time_unit, ax))
         elif k == 'mu':
             ax = operator.imul(ax, op[1])
         elif k == 'dv':
@@ -264,7 +271,17 @@ def concretise(rng, kind, a):
         return (kind, form, rng.randint(-9, 9) if room else 0)
     if kind in ('ar', 'sr'):
         sgn = 1 if kind == 'ar' else -1
-        form = rng.choice(['u', 'l', 'a64', 'a32', 't', 'u', 'ax'])
+        form = rng.choice(['u', 'l', 'a64', 'a32', 't', 'u', 'ax', 'self', 'one'])
+        if form == 'self' and room:
+            # the axis itself / a view of all of it as the operand (t += t, t -= t[:])
+            return (kind, rng.choice(['self', 'selfview']), [t0 + i * dt for i in range(n)], None, 'ps')
+        if form == 'one' and room:
+            # a 1-d operand with a single element, whatever the length of the axis
+            f1 = rng.choice(['l', 'a64', 'a32', 't'])
+            v = rng.randint(-9, 9)
+            return (kind, 't', [v * f], None, unit) if f1 == 't' else (kind, f1, [v], None)
+        if form in ('self', 'one'):
+            form = 'a64'
         if form == 'ax' and n >= 1 and room:
             # the axis itself, its negative, or a ramp whose step cancels the interval (Δ' = 0)
             w = rng.choice(['self', 'neg', 'cancel', 'cancel'])
@@ -410,6 +427,13 @@ CORPUS = [
     (('ms', 1 * S, 2 * S, 4), [('nu', 'a64', [0, 1], 'add')]),
     (('ms', 1 * S, 2 * S, 4), [('st', 'i', 0, 42)]),
     (('ms', 1 * S, 2 * S, 4), [('mu', 0)]),
+    (('s', 3000 * S, 2000 * S, 4), [('ar', 'self', [3000 * S, 5000 * S, 7000 * S, 9000 * S], None, 'ps')]),
+    (('s', 3000 * S, 2000 * S, 4), [('ar', 'selfview', [3000 * S, 5000 * S, 7000 * S, 9000 * S], None, 'ps')]),
+    (('s', 3000 * S, 2000 * S, 4), [('sr', 'self', [3000 * S, 5000 * S, 7000 * S, 9000 * S], None, 'ps')]),
+    (('s', 3000 * S, 2000 * S, 1), [('ar', 'a64', [5], None)]),
+    (('s', 3000 * S, 2000 * S, 4), [('sr', 'l', [1], None)]),
+    (('s', 3000 * S, 2000 * S, 4), [('sl', None, None, -1)]),
+    (('s', 3000 * S, 2000 * S, 4), [('mu', -1), ('as', 'i', 2)]),
 ]
 
 
@@ -444,7 +468,7 @@ def judge_axis(o, a):
         sym.append('rate')
     if o['unit'] != unit:
         sym.append('unit')
-    if dt > 0 and o['looks'] != [str(i) for i in range(n)]:
+    if dt != 0 and o['looks'] != [str(i) for i in range(n)]:
         sym.append('lookup')
     return sym
 
@@ -459,8 +483,12 @@ def judge(init, ops, steps=None):
     for i, ((oc, axes), (a, acc)) in enumerate(zip(steps, ab)):
         op = ops[i - 1] if i else ('init',)
         name = KIND_NAME[op[0]]
-        if op[0] in ('ar', 'sr', 'nu') and len(op[2]) != ab[i - 1][0][2]:
+        if op[0] in ('ar', 'sr', 'nu') and len(op[2]) != ab[i - 1][0][2] and len(op[2]) != 1:
             name += '-wrong-length'
+        elif op[0] in ('ar', 'sr') and op[1] in ('self', 'selfview'):
+            name += '-aliased'
+        elif op[0] in ('ar', 'sr', 'nu') and len(op[2]) == 1:
+            name += '-one-element'
         elif op[0] in ('ar', 'sr') and acc is False:
             name += '-collapse'
         elif op[0] == 'mu' and op[1] == 0:
@@ -473,16 +501,8 @@ def judge(init, ops, steps=None):
             name += '-interval-beyond-2^52'
         sym = []
         accepted = (oc == 'ok')
-        if acc is None:
-            # 1-element 1-d operand: a shift or a refusal are both acceptable
-            a = a if not accepted else ((a[0] - op[2][0] * (1 if op[1] in ('t', 'u') else FACTOR[a[3]]) if (op[0] == 'sr' or (op[0] == 'nu' and op[3] == 'sub'))
-                                         else a[0] + op[2][0] * (1 if op[1] in ('t', 'u') else FACTOR[a[3]])), a[1], a[2], a[3])
-            if accepted:
-                # the abstract trace continues from the unshifted state; stop judging this history here
-                sym = judge_axis(parse_axis(axes[0]), a)
-                if sym:
-                    return ('%s/%s' % (name + '-len1', sym_key(sym, name)), describe(init, ops, i, oc, axes, a, sym), i)
-                return None
+        if False:
+            pass
         elif acc and not accepted:
             sym.append('raises-' + oc)
         elif not acc and accepted:
@@ -499,6 +519,9 @@ def judge(init, ops, steps=None):
             if then is not None and now != then:
                 sym.insert(0, 'original-changed')
                 break
+        if sym == ['lookup'] and a[1] < 0:
+            # every attribute describes the (decreasing) samples, only index_at does not cope
+            return ('negative-interval/lookup', describe(init, ops, i, oc, axes, a, sym), i)
         if sym:
             return ('%s/%s' % (name, sym_key(sym, name)), describe(init, ops, i, oc, axes, a, sym), i)
         prev_axes = axes
@@ -544,8 +567,54 @@ def describe(init, ops, i, oc, axes, a, sym):
             % (tuple(init), [tok_op(o) for o in ops[:i]], i, oc, axes[:2], a, sym))[:900]
 
 
+def slice_during_experiment(rng, tier):
+    """slice_during on axes with a negative interval (reversed slices, scaling by -1) against brute
+    force: the samples with start <= t < stop (oracle only; the C03 model owns slice_during)"""
+    import warnings
+    t = ts()
+    fails, n = [], 0
+    for _ in range(60 if tier == 'quick' else 600):
+        m = rng.randint(1, 8)
+        t0, dt, c = rng.randint(-5, 9), rng.randint(1, 3), rng.choice([-1, -2, -3])
+        a2 = rng.randint(-20, 60)
+        b2 = a2 + rng.randint(0, 40)
+        spec = {'n': m, 't0': t0, 'dt': dt, 'c': c, 'start': a2 / 2.0, 'stop': b2 / 2.0, 'how': rng.choice(['slice', 'mul'])}
+        f = slice_during_one(spec)
+        n += 1
+        if f:
+            fails.append(f)
+    return fails, n
+
+
+def slice_during_one(spec):
+    import warnings
+    t = ts()
+    with warnings.catch_warnings():
+        warnings.simplefilter('ignore')
+        u = t.UniformTime(t0=spec['t0'], length=spec['n'], sampling_interval=spec['dt'], time_unit='ms')
+        if spec['how'] == 'slice':
+            v = u[::spec['c']]
+        else:
+            v = u
+            v *= -1
+        want = [int(x) for x in np.asarray(v) if spec['start'] * 10**9 <= x < spec['stop'] * 10**9]
+        try:
+            sl = v.slice_during(t.Epochs(spec['start'], spec['stop'], time_unit='ms'))
+            got = [int(x) for x in np.asarray(v[sl])]
+        except Exception as e:  # noqa
+            got = 'raises ' + err_kind(e)
+    if got != want:
+        return Failure('slice-during/negative-interval/wrong-selection',
+                       'slice_during on a decreasing axis %s with epoch [%s, %s) ms selects %s, the samples inside are %s'
+                       % ([int(x) // 10**9 for x in np.asarray(v)], spec['start'], spec['stop'], got, want),
+                       {'key': 'slice-during/negative-interval/wrong-selection', 'slice_during': spec})
+    return None
+
+
 def oracle(rng, tier, seed, focus, cases=None):
     fails, n = [], 0
+    f_sd, n_sd = slice_during_experiment(rng, tier)
+    fails += f_sd
     for c in (cases or []):
         n += 1
         init, ops = tuple(c.meta['init']), [tuple(o) for o in c.meta['ops']]
@@ -555,7 +624,7 @@ def oracle(rng, tier, seed, focus, cases=None):
             fails.append(Failure(key, what, {'key': key, 'init': list(init), 'ops': [list(o) for o in ops[:i]]}, case=c))
     cur = sum(1 for c in (cases or []) if c.model and norm_outcomes(c.impl) == norm_outcomes(c.model.split(' ## ')[-1]))
     fix = sum(1 for c in (cases or []) if c.model and cmp_fixed(c.impl, c.model))
-    return fails, {'judged': n, 'failed': len(fails), 'distinct_keys': len({f.key for f in fails}), 'focus': len(focus),
+    return fails, {'slice_during_experiments': n_sd, 'judged': n, 'failed': len(fails), 'distinct_keys': len({f.key for f in fails}), 'focus': len(focus),
                    'histories_matching_repaired_model': fix, 'histories_matching_unrepaired_model': cur}
 
 
@@ -563,6 +632,8 @@ def replay(d):
     """re-run the recorded history on the current tree; it fails when the recorded symptom
     reproduces, or when the history fails in any way that is not a recorded finding"""
     import common
+    if 'slice_during' in d:
+        return slice_during_one(d['slice_during'])
     init = tuple(d['init'])
     ops = [tuple(o) for o in d['ops']]
     r = judge(init, ops)
